@@ -12,16 +12,16 @@ TECH = {
  'C06': 'runtime monitor: separation oracle on reported bases with recorded raw mixture-component counts and merge events',
  'C07': 'metamorphic twin-run monitor (three related executions compared bit-wise) + conservation check of kept hits',
  'C08': 'crash/exception-type monitor with CPU-time watchdog over the widest generated workload + refusal inputs',
- 'C09': 'cross-process digest comparison (hash seeds, RNG states, histories) + RNG-state bracket monitor + seed-call spy',
+ 'C09': 'cross-process digest comparison (4 processes: hash seeds, RNG states, case order, process histories incl. same data with other parameters and global-route history) + RNG-state bracket monitor + seed-call spy',
  'C10': 'metamorphic twin-run monitor over index relabellings, column layouts and dtype variants',
  'C11': 'snapshot-bracket monitor around every call + history monitor against a reference model of parameter snapshots',
  'C12': 'differential monitor over the parameter routes with a poisoned global + reference model of reset_prms',
- 'C13': 'exhaustive stage interleavings + threads under a controlled sys.monitoring line scheduler, compared with isolated runs',
- 'C14': 'history monitor: call-sequence tree walked against an executable reference model built from the canonical run',
+ 'C13': 'exhaustive stage interleavings + threads under a controlled sys.monitoring scheduler (line / call / return yield points, PCT, random walk, atomicity probes at static sites), each chunk compared with its digest from a fresh process',
+ 'C14': 'history monitor: breadth-first walk of the reachable state graph of the real chunk (closure = all call sequences) judged edge by edge against an executable reference model built from the canonical run',
  'C15': 'differential monitor: real input screening vs an independent reference implementation over defect-injected frames',
  'C16': 'metamorphic twin-run monitor under bijective ceilometer renamings',
- 'C17': 'exhaustive enumeration of okta sequences through the real function vs an independent fold; in-situ icontract',
- 'C18': 'exhaustive enumeration of n/m percentages, height grid and boundary neighbours through the real functions',
+ 'C17': 'exhaustive enumeration of okta sequences through the real function vs an independent fold; call histories (caller edits, failing calls), numpy integer types, DEBUG logging; in-situ icontract',
+ 'C18': 'exhaustive enumeration of n/m percentages, height grid and boundary neighbours through the real functions; input dtypes, aliasing, process history, DEBUG logging',
  'C19': 'runtime monitor: order/round-trip/continuity/NaN oracles over generated arrays through the real scaler + in-situ icontract',
  'C20': 'side-effect bracket monitor (rcParams, figures, files, chunk digest, globals) around the real diagnostic()',
 }
